@@ -227,28 +227,31 @@ Section Check.
     - destruct (check_steps m0 sw p) as [m1 ok]; simpl in *; subst ok. reflexivity.
   Qed.
 
-  (* the acceptance condition, as a boolean *)
-  Definition accept_b (rdm0 : bool) (p : list step) : bool :=
+  (* the acceptance condition, as a boolean: no trace of the machine's past
+     in it (the first round starts with right_disp_map = None) *)
+  Definition accept_b (p : list step) : bool :=
     match path_ok Begin p with
     | Some _ =>
       forallb (fun s => step_ok s false) p
-      && (if rdm0 || has_kind Val p then forallb (fun s => step_ok s true) p else true)
+      && (if has_kind Val p then forallb (fun s => step_ok s true) p else true)
     | None => false
     end.
 
   Theorem check_conf_spec m p : clean m ->
-    if accept_b (m_rdm m) p
-    then check_conf m p = Accepted (mkM Begin [] (m_rdm m || has_kind Val p) (m_scale m))
+    if accept_b p
+    then check_conf m p = Accepted (mkM Begin [] (has_kind Val p) (m_scale m))
     else exists m', check_conf m p = Rejected m'.
   Proof.
     intros Hm. unfold accept_b, check_conf.
-    pose proof (check_round_spec m false p Hm) as H1.
+    assert (Hm0 : clean (set_rdm m false)) by (destruct Hm; split; assumption).
+    pose proof (check_round_spec (set_rdm m false) false p Hm0) as H1.
+    cbn [set_rdm m_rdm m_scale orb] in H1.
     destruct (path_ok Begin p) as [d|] eqn:Ep.
-    2:{ destruct (check_round m false p) as [m1 ok]; simpl in *; subst ok. simpl. eauto. }
+    2:{ destruct (check_round (set_rdm m false) false p) as [m1 ok]; simpl in *; subst ok. simpl. eauto. }
     destruct (forallb (fun s => step_ok s false) p) eqn:E1; simpl.
-    2:{ destruct (check_round m false p) as [m1 ok]; simpl in *; subst ok. simpl. eauto. }
+    2:{ destruct (check_round (set_rdm m false) false p) as [m1 ok]; simpl in *; subst ok. simpl. eauto. }
     rewrite H1. simpl.
-    destruct (m_rdm m || has_kind Val p) eqn:Erdm; [|reflexivity].
+    destruct (has_kind Val p) eqn:Erdm; [|reflexivity].
     set (m1 := mkM Begin [] true (m_scale m)).
     assert (Hm1 : clean m1) by (split; reflexivity).
     pose proof (check_round_spec m1 true p Hm1) as H2. rewrite Ep in H2.
@@ -401,12 +404,12 @@ Section Check.
     path_ok Begin p = Some d ->
     (n >= 1)%nat -> ((n > 1)%nat -> has_kind Msc p = true) ->
     run m p n =
-      RunOk (mkM Begin [] (m_rdm m || has_kind Val p) 0)
-            (expected_trace p n (m_rdm m || has_kind Val p)).
+      RunOk (mkM Begin [] (has_kind Val p) 0)
+            (expected_trace p n (has_kind Val p)).
   Proof.
-    intros [Hst Hregs] Hp Hn Hmsc. unfold run.
+    intros [Hst Hregs] Hp Hn Hmsc. unfold run, run_from.
     destruct n as [|j]; [lia|].
-    set (m0 := mkM (m_st m) (m_regs m ++ run_tbl) (m_rdm m || has_kind Val p) (Z.of_nat (S j) - 1)).
+    set (m0 := mkM (m_st m) (m_regs m ++ run_tbl) (has_kind Val p) (Z.of_nat (S j) - 1)).
     rewrite (scale_loop_spec j m0 [] p d).
     - simpl. rewrite remove_self_run. unfold expected_trace.
       replace (S j - 1)%nat with j by lia. reflexivity.
@@ -414,29 +417,172 @@ Section Check.
     - unfold m0; simpl. exact Hst.
     - unfold m0; cbn [m_scale]. lia.
     - exact Hp.
-    - unfold m0; cbn [m_rdm]. intros ->. apply orb_true_r.
+    - unfold m0; cbn [m_rdm]. intros ->. reflexivity.
     - intros Hj. apply Hmsc. lia.
   Qed.
 
-  (* ------------------------------------------------------------------ *)
-  (* histories of successful check/run calls on one machine              *)
+  (* the transitions registered on the machine do not change while steps run *)
+  Lemma run_steps_regs (p : list step) : forall m tr,
+    m_regs (fst (fst (run_steps m p tr))) = m_regs m.
+  Proof.
+    induction p as [|s r IH]; intros m tr; simpl; [reflexivity|].
+    destruct (s_kind s) as [k|]; [|reflexivity].
+    destruct (fire (m_regs m) (m_st m) PRun k (negb (m_scale m =? 0))) as [d| | |]; try reflexivity.
+    - destruct (kind_eqb k Val && negb (m_rdm m)); [reflexivity|].
+      destruct (state_eqb d Begin).
+      + destruct (kind_eqb k Msc); reflexivity.
+      + rewrite IH. destruct (kind_eqb k Msc); reflexivity.
+    - destruct (state_eqb (m_st m) Begin); [reflexivity | apply IH].
+  Qed.
 
-  Inductive call := CCheck | CRun.
+  Lemma scale_loop_regs (n : nat) : forall m p tr,
+    m_regs (fst (fst (scale_loop n m p tr))) = m_regs m.
+  Proof.
+    induction n as [|n IH]; intros m p tr; [reflexivity|].
+    rewrite scale_loop_S. pose proof (run_steps_regs p m tr) as H.
+    destruct (run_steps m p tr) as [[m1 tr1] stt]. simpl in H.
+    destruct stt; try (rewrite IH; exact H); exact H.
+  Qed.
+
+  (* a run that ends without error leaves the machine clean, WHATEVER the
+     pipeline and the number of scales (run_exit) *)
+  Lemma run_ok_clean m p n m' tr : clean m -> run m p n = RunOk m' tr -> clean m'.
+  Proof.
+    intros [Hst Hregs]. unfold run, run_from.
+    set (m0 := mkM _ _ _ _).
+    pose proof (scale_loop_regs n m0 p []) as H.
+    destruct (scale_loop n m0 p []) as [[m1 tr1] ok]. simpl in H.
+    destruct ok; [|discriminate]. intros E; injection E as <- _.
+    split; [reflexivity|]. simpl. rewrite H. unfold m0; simpl. rewrite Hregs. simpl.
+    apply remove_self_run.
+  Qed.
+
+  (* run looks at the machine only through its state and its registered
+     transitions: on a clean machine it is the run of a fresh machine *)
+  Lemma run_clean_fresh m p n : clean m -> run m p n = run machine0 p n.
+  Proof. intros [Hst Hregs]. unfold run. rewrite Hst, Hregs. reflexivity. Qed.
+
+  (* ------------------------------------------------------------------ *)
+  (* histories of check/run calls on one machine                        *)
 
   (* outcome of a call, as a user sees it *)
   Inductive outcome := OAccepted | ORejected | ORan (tr : list ev) | OFailed.
 
-  Definition do_call (n : nat) (p : list step) (m : machine) (c : call) : machine * outcome :=
+  Definition successful (o : outcome) : bool :=
+    match o with OAccepted | ORan _ => true | ORejected | OFailed => false end.
+
+  (* a call: check any pipeline, or run any pipeline with any number of scales *)
+  Inductive gcall := GCheck (p : list step) | GRun (p : list step) (n : nat).
+
+  Definition do_gcall (m : machine) (c : gcall) : machine * outcome :=
     match c with
-    | CCheck => match check_conf m p with
-                | Accepted m' => (m', OAccepted)
-                | Rejected m' => (m', ORejected)
-                end
-    | CRun => match run m p n with
-              | RunOk m' tr => (m', ORan tr)
-              | RunError m' _ => (m', OFailed)
-              end
+    | GCheck p => match check_conf m p with
+                  | Accepted m' => (m', OAccepted)
+                  | Rejected m' => (m', ORejected)
+                  end
+    | GRun p n => match run m p n with
+                  | RunOk m' tr => (m', ORan tr)
+                  | RunError m' _ => (m', OFailed)
+                  end
     end.
+
+  Fixpoint ghistory (m : machine) (h : list gcall) : list outcome :=
+    match h with
+    | [] => []
+    | c :: r => let '(m', o) := do_gcall m c in o :: ghistory m' r
+    end.
+
+  Fixpoint gfinal (m : machine) (h : list gcall) : machine :=
+    match h with
+    | [] => m
+    | c :: r => gfinal (fst (do_gcall m c)) r
+    end.
+
+  (* what the call returns on a machine object that has never been used *)
+  Definition fresh_outcome (c : gcall) : outcome := snd (do_gcall machine0 c).
+
+  Lemma clean0 : clean machine0.
+  Proof. split; reflexivity. Qed.
+
+  Lemma do_gcall_clean m c : clean m ->
+    snd (do_gcall m c) = fresh_outcome c
+    /\ (successful (fresh_outcome c) = true -> clean (fst (do_gcall m c))).
+  Proof.
+    intros Hm. unfold fresh_outcome. destruct c as [p | p n]; cbn [do_gcall].
+    - pose proof (check_conf_spec m p Hm) as H. pose proof (check_conf_spec machine0 p clean0) as H0.
+      destruct (accept_b p).
+      + rewrite H, H0. split; [reflexivity|]. intros _. split; reflexivity.
+      + destruct H as [m1 ->], H0 as [m2 ->]. split; [reflexivity|]. simpl. discriminate.
+    - rewrite (run_clean_fresh m p n Hm).
+      destruct (run machine0 p n) as [m1 tr|m1 tr] eqn:E; simpl.
+      + split; [reflexivity|]. intros _. exact (run_ok_clean machine0 p n m1 tr clean0 E).
+      + split; [reflexivity|]. discriminate.
+  Qed.
+
+  (* every call but the last returned (on a fresh machine, hence -- by the
+     theorem -- in the history) successfully *)
+  Fixpoint earlier_successful (h : list gcall) : bool :=
+    match h with
+    | [] => true
+    | c :: r => match r with
+                | [] => true
+                | _ => successful (fresh_outcome c) && earlier_successful r
+                end
+    end.
+
+  Theorem ghistory_fresh : forall h m, clean m -> earlier_successful h = true ->
+    ghistory m h = map fresh_outcome h.
+  Proof.
+    induction h as [|c r IH]; intros m Hm Hs; [reflexivity|].
+    cbn [ghistory map]. destruct (do_gcall_clean m c Hm) as [Ho Hcl].
+    destruct (do_gcall m c) as [m' o]. simpl in Ho, Hcl. subst o. f_equal.
+    destruct r as [|c2 r2]; [reflexivity|].
+    cbn [earlier_successful] in Hs. apply andb_true_iff in Hs as [Hs1 Hs2].
+    apply IH; auto.
+  Qed.
+
+  Theorem gfinal_clean : forall h m, clean m ->
+    forallb (fun c => successful (fresh_outcome c)) h = true -> clean (gfinal m h).
+  Proof.
+    induction h as [|c r IH]; intros m Hm Hs; [exact Hm|].
+    cbn [forallb] in Hs. apply andb_true_iff in Hs as [Hs1 Hs2].
+    cbn [gfinal]. apply IH; [|exact Hs2]. apply (do_gcall_clean m c Hm); exact Hs1.
+  Qed.
+
+  Lemma all_successful_earlier h :
+    forallb (fun c => successful (fresh_outcome c)) h = true -> earlier_successful h = true.
+  Proof.
+    induction h as [|c r IH]; [reflexivity|]. cbn [forallb]. intros H.
+    apply andb_true_iff in H as [H1 H2]. cbn [earlier_successful].
+    destruct r; [reflexivity|]. rewrite H1. simpl. apply IH; exact H2.
+  Qed.
+
+  (* the fresh-machine outcomes, spelled out *)
+  Theorem fresh_check p :
+    fresh_outcome (GCheck p) = if accept_b p then OAccepted else ORejected.
+  Proof.
+    unfold fresh_outcome. cbn [do_gcall].
+    pose proof (check_conf_spec machine0 p clean0) as H.
+    destruct (accept_b p); [rewrite H; reflexivity | destruct H as [m' ->]; reflexivity].
+  Qed.
+
+  Theorem fresh_run p n d : path_ok Begin p = Some d ->
+    (n >= 1)%nat -> ((n > 1)%nat -> has_kind Msc p = true) ->
+    fresh_outcome (GRun p n) = ORan (expected_trace p n (has_kind Val p)).
+  Proof.
+    intros Hp Hn Hmsc. unfold fresh_outcome. cbn [do_gcall].
+    rewrite (run_spec machine0 p n d clean0 Hp Hn Hmsc). reflexivity.
+  Qed.
+
+  (* --- the special case of one pipeline (the last sentence of C01) --- *)
+
+  Inductive call := CCheck | CRun.
+
+  Definition call_of (n : nat) (p : list step) (c : call) : gcall :=
+    match c with CCheck => GCheck p | CRun => GRun p n end.
+
+  Definition do_call (n : nat) (p : list step) (m : machine) (c : call) : machine * outcome :=
+    do_gcall m (call_of n p c).
 
   Fixpoint history (n : nat) (p : list step) (m : machine) (h : list call) : list outcome :=
     match h with
@@ -450,22 +596,28 @@ Section Check.
     | CRun => ORan (expected_trace p n (has_kind Val p))
     end.
 
+  Lemma history_ghistory n p : forall h m,
+    history n p m h = ghistory m (map (call_of n p) h).
+  Proof.
+    induction h as [|c r IH]; intros m; [reflexivity|].
+    cbn [history map ghistory]. unfold do_call.
+    destruct (do_gcall m (call_of n p c)) as [m' o]. f_equal. apply IH.
+  Qed.
+
   Theorem history_spec n p d : forall h m,
-    clean m -> (m_rdm m = true -> has_kind Val p = true) ->
-    path_ok Begin p = Some d -> accept_b (has_kind Val p) p = true ->
+    clean m ->
+    path_ok Begin p = Some d -> accept_b p = true ->
     (n >= 1)%nat -> ((n > 1)%nat -> has_kind Msc p = true) ->
     history n p m h = map (expected_outcome n p) h.
   Proof.
-    induction h as [|c r IH]; intros m Hm Hrdm Hp Hacc Hn Hmsc; [reflexivity|].
-    assert (Er : m_rdm m || has_kind Val p = has_kind Val p).
-    { destruct (m_rdm m) eqn:E; simpl; [symmetry; auto | reflexivity]. }
-    cbn [history map]. destruct c; cbn [do_call expected_outcome].
-    - pose proof (check_conf_spec m p Hm) as H.
-      assert (Ha : accept_b (m_rdm m) p = true).
-      { unfold accept_b in *. rewrite Hp in *. rewrite Er. rewrite orb_diag in Hacc. exact Hacc. }
-      rewrite Ha in H. rewrite H. f_equal. apply IH; auto; [split; reflexivity | simpl; rewrite Er; auto].
-    - rewrite (run_spec m p n d Hm Hp Hn Hmsc). rewrite Er. f_equal.
-      apply IH; auto; [split; reflexivity].
+    intros h m Hm Hp Hacc Hn Hmsc. rewrite history_ghistory.
+    assert (Hf : forall c, fresh_outcome (call_of n p c) = expected_outcome n p c).
+    { intros [|]; cbn [call_of expected_outcome].
+      - rewrite fresh_check, Hacc. reflexivity.
+      - apply (fresh_run p n d); assumption. }
+    rewrite ghistory_fresh; [rewrite map_map; apply map_ext; exact Hf | exact Hm |].
+    apply all_successful_earlier. rewrite forallb_forall. intros c Hin.
+    apply in_map_iff in Hin as (c0 & <- & _). rewrite Hf. destruct c0; reflexivity.
   Qed.
 
   (* acceptance, in the words of the property *)
@@ -486,13 +638,13 @@ Section Check.
     (exists m', check_conf m p = Accepted m') <->
     (spells_documented_path p
      /\ forallb (fun s => step_ok s false) p = true
-     /\ (m_rdm m || has_kind Val p = true -> forallb (fun s => step_ok s true) p = true)).
+     /\ (has_kind Val p = true -> forallb (fun s => step_ok s true) p = true)).
   Proof.
     intros Hm. pose proof (check_conf_spec m p Hm) as H.
     rewrite <- path_ok_iff_shape. unfold accept_b in H.
     destruct (path_ok Begin p) as [d|] eqn:Ep.
     - destruct (forallb (fun s => step_ok s false) p) eqn:E1; simpl in H.
-      + destruct (m_rdm m || has_kind Val p) eqn:Er.
+      + destruct (has_kind Val p) eqn:Er.
         * destruct (forallb (fun s => step_ok s true) p) eqn:E2.
           -- split; [intros _; repeat split; eauto | eauto].
           -- destruct H as [m' H]. split.
